@@ -230,6 +230,21 @@ def record_traces(n_examples, seed):
         concrete.append({'rows': [repr(r) for r in t[1:]], 'key': key, 'reverse': reverse, 'B': B, 'cache': cache,
                          'use_config': use_config})
     go()
+    # a few LARGE tables: many duplicate keys, buffersizes that spill into > 64 / > 128 chunk files, chunks of > 256 rows
+    rng = random.Random(seed)
+    for n, B in ((130, 1), (343, 3), (343, 5), (700, 300), (520, 2)):
+        keys = [rng.choice([None, 1, 2, 3, 2.5, u'x']) for _ in range(n)]
+        t = [['id', 'a', 'b']] + [[ID_BASE + i + 1, k, i % 3] for i, k in enumerate(keys)]
+        for reverse in (False, True):
+            with common.private_tmp() as tmp:
+                v = etl.sort(t, 'a', reverse=reverse, buffersize=B, tempdir=tmp)
+                passes = []
+                for _ in range(2):
+                    out = [r[0] - ID_BASE for r in etl.data(v)]
+                    passes.append({'out': out, 'files': (n + B - 1) // B, 'raised': False})
+                del v
+            traces.append({'keys': values.abstract_batch(keys), 'reverse': reverse, 'B': B, 'cache': True, 'passes': passes})
+            concrete.append({'rows': '%d rows over 6 key values' % n, 'key': 'a', 'reverse': reverse, 'B': B, 'cache': True, 'use_config': False})
     return traces, concrete
 
 
